@@ -24,7 +24,7 @@ def DirectlyIn (d p : Bytes) : Prop :=
     the resource directories. -/
 theorem C15_cmap_confined (dirs : List Bytes) (name p : Bytes) (hp : p ∈ cmapProbes dirs name) :
     ∃ d ∈ dirs, DirectlyIn d p := by
-  unfold cmapProbes at hp
+  rw [cmapProbes_eq] at hp
   split at hp
   · rename_i hplain
     obtain ⟨d, hd, rfl⟩ := List.mem_map.mp hp
@@ -34,8 +34,7 @@ theorem C15_cmap_confined (dirs : List Bytes) (name p : Bytes) (hp : p ∈ cmapP
 /-- Benign names are still looked up: the guard removes nothing that has no separator. -/
 theorem C15_cmap_lookup_kept (dirs : List Bytes) (name : Bytes) (h : ¬ 47 ∈ name) :
     cmapProbes dirs name = dirs.map (fun d => join d (cmapFilename name)) := by
-  unfold cmapProbes
-  rw [if_pos]
+  rw [cmapProbes_eq, if_pos]
   simp only [plainFile, cmapFilename, stripNul, List.contains_eq_mem, List.mem_append, List.mem_filter,
     Bool.not_eq_eq_eq_not, Bool.not_true, decide_eq_false_iff_not, not_or]
   refine ⟨⟨by decide, fun hh => h hh.1⟩, by decide⟩
@@ -145,5 +144,187 @@ theorem C15_unicode_map_confined (dirs : List Bytes) (cidcoding p : Bytes)
 example : cmapProbes [[47, 117]] (unicodeMapName [65, 45, 66]) =
     [[47, 117, 47, 116, 111, 45, 117, 110, 105, 99, 111, 100, 101, 45, 65, 45, 66, 46, 112, 105, 99, 107, 108, 101, 46, 103, 122]] := by
   decide
+
+/-! ## Round 6 — the sanitiser for every byte string, the exact probe set, histories of exports -/
+
+/-- **safe_name_algebra.** For EVERY byte string used as an image name (empty, `.`, `..`, absolute, drive or UNC
+    forms, NULs, trailing dots or blanks, any length): the sanitised name has the same length, contains neither a
+    separator nor a NUL, is a fixed point of the sanitiser, is given byte by byte by "NUL and `/` become the
+    replacement character, everything else is kept", and names without those two bytes are not changed at all.
+    (`imageReplacedChars` and `imageReplacement` are regenerated from `_create_unique_image_name`.) -/
+theorem C15_safe_name_algebra (name : Bytes) :
+    (safeName name).length = name.length ∧ ¬ 47 ∈ safeName name ∧ ¬ 0 ∈ safeName name ∧
+    safeName (safeName name) = safeName name ∧
+    (∀ i : Nat, (safeName name)[i]? = (name[i]?).map (fun c => if c = 0 ∨ c = 47 then Gen.PathGen.imageReplacement else c)) ∧
+    ((¬ 47 ∈ name ∧ ¬ 0 ∈ name) → safeName name = name) := by
+  refine ⟨safeName_length name, safeName_no_slash name, safeName_no_nul name, safeName_idem name,
+    safeName_getElem name, ?_⟩
+  rintro ⟨h1, h2⟩
+  apply safeName_id
+  intro c hc hr
+  simp only [Gen.PathGen.imageReplacedChars, List.mem_cons, List.not_mem_nil, or_false] at hr
+  rcases hr with rfl | rfl
+  · exact h2 hc
+  · exact h1 hc
+
+/-- Non-vacuity: the forms the property's quantifier names, as byte strings on POSIX: empty, `.`, `..`, `/`,
+    `//h/s` (UNC), `C:\x` (drive), `a. ` (trailing dot and blank), `a\0/b`. -/
+example : safeName [] = [] ∧ safeName [46] = [46] ∧ safeName [46, 46] = [46, 46] ∧ safeName [47] = [95] ∧
+    safeName [47, 47, 104, 47, 115] = [95, 95, 104, 95, 115] ∧ safeName [67, 58, 92, 120] = [67, 58, 92, 120] ∧
+    safeName [97, 46, 32] = [97, 46, 32] ∧ safeName [97, 0, 47, 98] = [97, 95, 95, 98] := by decide
+
+/-- ... and where each of them ends up below `/o` with extension `.bmp` (first candidate, nothing exists): always a
+    plain file directly inside `/o`. -/
+example : (imagePath [47, 111] [] [46, 98, 109, 112] []).map (·.2) = some [47, 111, 47, 46, 98, 109, 112] ∧
+    (imagePath [47, 111] [46, 46] [46, 98, 109, 112] []).map (·.2) = some [47, 111, 47, 46, 46, 46, 98, 109, 112] ∧
+    (imagePath [47, 111] [47, 47, 104, 47, 115] [46, 98, 109, 112] []).map (·.2) =
+      some [47, 111, 47, 95, 95, 104, 95, 115, 46, 98, 109, 112] := by decide +kernel
+
+/-- **cmap_probe_exact.** The CMap lookup hands to `os.path.exists` / `gzip.open` exactly the paths
+    `<dir>/<name without NULs>.pickle.gz` for `dir` in the configured list, in the order of that list — and none at
+    all when the name contains a separator.  The last component of every probed path (after normalisation) is that
+    file name: nothing in the name can select another file. -/
+theorem C15_cmap_probe_exact (dirs : List Bytes) (name : Bytes) :
+    cmapProbes dirs name = (if 47 ∈ name then [] else dirs.map (fun d => join d (cmapFilename name))) ∧
+    ∀ p ∈ cmapProbes dirs name, (norm p).2.getLast? = some (cmapFilename name) := by
+  have hpl : plainFile (cmapFilename name) = !decide (47 ∈ name) := by
+    have h1 : ¬ (47 : UInt8) ∈ Gen.PathGen.cmapPrefix := by decide
+    have h2 : ¬ (47 : UInt8) ∈ Gen.PathGen.cmapSuffix := by decide
+    simp [plainFile, cmapFilename, stripNul, h1, h2]
+  constructor
+  · rw [cmapProbes_eq, hpl]
+    by_cases h : (47 : UInt8) ∈ name <;> simp [h]
+  · intro p hp
+    rw [cmapProbes_eq] at hp
+    split at hp
+    · rename_i hplain
+      obtain ⟨d, _, rfl⟩ := List.mem_map.mp hp
+      rw [norm_join_plain d _ (cmapFilename_plain name hplain)]
+      simp
+    · simp at hp
+
+example : cmapProbes [[47, 117], [47, 118]] [72, 0, 47, 120] = [] ∧
+    cmapProbes [[47, 117]] [72, 0, 120] = [[47, 117, 47, 72, 120, 46, 112, 105, 99, 107, 108, 101, 46, 103, 122]] := by
+  decide
+
+/-- **history.** For EVERY history of exports `(image name, extension)` into one output directory that already
+    holds arbitrary files: every request gets a file (the naming loop never gives up), the file names are pairwise
+    distinct, so are the paths, none of them is a file that was there before, each path is `outdir/<name>` and lies
+    directly inside `outdir`. -/
+theorem C15_history (outdir : Bytes) : ∀ (reqs : List (Bytes × Bytes)) (existing : List Bytes),
+    (∀ r ∈ reqs, ValidExt r.2) →
+    (exportHistory outdir reqs existing).length = reqs.length ∧
+    ((exportHistory outdir reqs existing).map (·.1)).Nodup ∧
+    ((exportHistory outdir reqs existing).map (·.2)).Nodup ∧
+    ∀ r ∈ exportHistory outdir reqs existing,
+      r.1 ∉ existing ∧ PlainComp r.1 ∧ r.2 = join outdir r.1 ∧ DirectlyIn outdir r.2
+  | [], _, _ => by simp [exportHistory]
+  | (name, ext) :: rest, existing, hv => by
+    have hext : ValidExt ext := hv (name, ext) (by simp)
+    have hrest : ∀ r ∈ rest, ValidExt r.2 := fun r hr => hv r (by simp [hr])
+    unfold exportHistory
+    have hsome := C15_unique_terminates outdir name ext existing
+    cases h : imagePath outdir name ext existing with
+    | none => simp [h] at hsome
+    | some q =>
+      obtain ⟨nm, p⟩ := q
+      obtain ⟨ih1, ih2, ih3, ih4⟩ := C15_history outdir rest (nm :: existing) hrest
+      have hfresh := C15_no_overwrite outdir name ext nm p existing h
+      have hin := C15_image_confined outdir name ext nm p existing hext h
+      have hshape : PlainComp nm ∧ p = join outdir nm := by
+        unfold imagePath at h
+        cases hu : uniqueName existing (safeName name) ext with
+        | none => simp [hu] at h
+        | some n =>
+          simp only [hu, Option.map_some, Option.some.injEq, Prod.mk.injEq] at h
+          obtain ⟨rfl, rfl⟩ := h
+          obtain ⟨_, j, _, rfl⟩ := uniqueName_fresh existing (safeName name) ext n hu
+          exact ⟨candidate_plain name ext hext j, rfl⟩
+      simp only [List.length_cons, List.map_cons, List.nodup_cons, List.mem_cons, List.mem_map]
+      refine ⟨by omega, ⟨?_, ih2⟩, ⟨?_, ih3⟩, ?_⟩
+      · rintro ⟨r, hr, rfl⟩
+        exact (ih4 r hr).1 (by simp)
+      · rintro ⟨r, hr, hrp⟩
+        obtain ⟨hr1, hr2, hr3, _⟩ := ih4 r hr
+        have : r.1 = nm := by
+          apply join_right_injective outdir _ _ (isAbs_plain _ hr2) (isAbs_plain _ hshape.1)
+          rw [← hr3, hrp, hshape.2]
+        exact hr1 (by simp [this])
+      · intro r hr
+        rcases hr with rfl | hr
+        · exact ⟨hfresh, hshape.1, hshape.2, hin⟩
+        · obtain ⟨a, b, c, d⟩ := ih4 r hr
+          exact ⟨fun he => a (by simp [he]), b, c, d⟩
+
+/-- Non-vacuity: the same hostile name `../x` three times (twice as `.bmp`, once as `.jpg`) into `/o`, which
+    already holds `.._x.bmp` and `.._x.1.bmp`. -/
+example : (exportHistory [47, 111] [([46, 46, 47, 120], [46, 98, 109, 112]), ([46, 46, 47, 120], [46, 98, 109, 112]),
+      ([46, 46, 47, 120], [46, 106, 112, 103])]
+      [[46, 46, 95, 120, 46, 98, 109, 112], [46, 46, 95, 120, 46, 49, 46, 98, 109, 112]]).map (·.1) =
+    [[46, 46, 95, 120, 46, 48, 46, 98, 109, 112], [46, 46, 95, 120, 46, 50, 46, 98, 109, 112],
+     [46, 46, 95, 120, 46, 106, 112, 103]] := by decide +kernel
+
+/-- **cmap_dirs_absolute.** Where the CMap lookup searches when `CMAP_PATH` is not set: the regenerated default and
+    `<package>/cmap` are absolute directories, so for a package installed at an absolute path every probed path is
+    absolute — it cannot depend on the process's working directory — and lies directly inside one of these two. -/
+theorem C15_cmap_dirs_absolute (pkgdir name p : Bytes) (hpkg : isAbs pkgdir = true)
+    (hp : p ∈ cmapProbes (cmapDirs none pkgdir) name) :
+    isAbs p = true ∧ (DirectlyIn Gen.PathGen.cmapPathDefault p ∨ DirectlyIn (join pkgdir Gen.PathGen.cmapPkgSubdir) p) := by
+  have hdef : isAbs Gen.PathGen.cmapPathDefault = true := by decide
+  have hsub : isAbs Gen.PathGen.cmapPkgSubdir = false := by decide
+  have hne : pkgdir ≠ [] := by intro h; rw [h] at hpkg; simp [isAbs] at hpkg
+  have hj : isAbs (join pkgdir Gen.PathGen.cmapPkgSubdir) = true := by
+    unfold join
+    simp only [hsub, Bool.false_eq_true, if_false]
+    split
+    · rw [isAbs_append _ _ hne]; exact hpkg
+    · rw [isAbs_append _ _ hne]; exact hpkg
+  obtain ⟨d, hd, hin⟩ := C15_cmap_confined _ name p hp
+  have hdabs : isAbs d = true := by
+    simp only [cmapDirs, Option.getD_none, List.mem_cons, List.not_mem_nil, or_false] at hd
+    rcases hd with rfl | rfl
+    · exact hdef
+    · exact hj
+  refine ⟨?_, ?_⟩
+  · obtain ⟨f, _, hn⟩ := hin
+    have h1 := congrArg Prod.fst hn
+    simp only [norm] at h1
+    rw [h1, hdabs]
+  · simp only [cmapDirs, Option.getD_none, List.mem_cons, List.not_mem_nil, or_false] at hd
+    rcases hd with rfl | rfl
+    · exact Or.inl hin
+    · exact Or.inr hin
+
+/-- Non-vacuity: package at `/p`, name `H`, `CMAP_PATH` not set. -/
+example : cmapProbes (cmapDirs none [47, 112]) [72] =
+    [[47, 117, 115, 114, 47, 115, 104, 97, 114, 101, 47, 112, 100, 102, 109, 105, 110, 101, 114, 47, 72, 46, 112, 105, 99, 107,
+      108, 101, 46, 103, 122],
+     [47, 112, 47, 99, 109, 97, 112, 47, 72, 46, 112, 105, 99, 107, 108, 101, 46, 103, 122]] := by decide
+
+/-- **norm_canonical.** `normpath` of EVERY byte string yields canonical components: none is empty or `.`, none
+    contains a separator, and an absolute path keeps no `..` at all (a relative one only what could not be resolved). -/
+theorem C15_norm_canonical (p : Bytes) : ∀ c ∈ (norm p).2,
+    c ≠ [] ∧ c ≠ [46] ∧ (¬ 47 ∈ c) ∧ (isAbs p = true → c ≠ [46, 46]) :=
+  norm_canon p
+
+/-- What "directly inside" is worth: for an absolute directory `d`, the normal form of a path that is `DirectlyIn d`
+    is the normal form of `d` followed by one plain file name, and contains no `..` anywhere — it denotes an entry of
+    that directory and nothing else. -/
+theorem C15_directly_in_no_dotdot (d p : Bytes) (hd : isAbs d = true) (h : DirectlyIn d p) :
+    (norm p).1 = true ∧ ∀ c ∈ (norm p).2, c ≠ [46, 46] ∧ c ≠ [] ∧ ¬ 47 ∈ c := by
+  obtain ⟨f, hf, hn⟩ := h
+  rw [hn]
+  refine ⟨by simp [norm, hd], ?_⟩
+  intro c hc
+  simp only [List.mem_append, List.mem_singleton] at hc
+  rcases hc with hc | rfl
+  · obtain ⟨h1, _, h3, h4⟩ := norm_canon d c hc
+    exact ⟨h4 hd, h1, h3⟩
+  · exact ⟨hf.2.2.2, hf.2.1, hf.1⟩
+
+/-- Non-vacuity: `/a/./b//../c/` → `/a/c`; `../x/..` → `..`; `/../..` → `/`. -/
+example : norm [47, 97, 47, 46, 47, 98, 47, 47, 46, 46, 47, 99, 47] = (true, [[97], [99]]) ∧
+    norm [46, 46, 47, 120, 47, 46, 46] = (false, [[46, 46]]) ∧ norm [47, 46, 46, 47, 46, 46] = (true, []) := by
+  decide +kernel
 
 end PdfVerif.Props.C15
